@@ -59,8 +59,12 @@ def check(m, run):
     from .. import skel_drivers as _sd
     n0 = len(run.obs)
     _sd.tr3(m, run)
+    try:
+        _sd.tr4(m, run)       # ... and on a real container of a B-spline and a rational curve, through the classes' own accessors
+    except AnalysisError as ex:
+        run.error(str(ex))
     tr_ok = all(o.ok for o in run.obs[n0:])
-    with run.corroborating(tr_ok, 'TR3', rules=('AL1.translate-map', 'AL2.scale-map')):
+    with run.corroborating(tr_ok, 'TR3/TR4', rules=('AL1.translate-map', 'AL2.scale-map')):
         maps_translate_scale(m, run)
     n0 = len(run.obs)
     _sd.rt2(m, run)
